@@ -26,6 +26,7 @@ import (
 	hostv2 "github.com/cosmos/ibc-go/v11/modules/core/24-host/v2"
 	ibcexported "github.com/cosmos/ibc-go/v11/modules/core/exported"
 	ibctm "github.com/cosmos/ibc-go/v11/modules/light-clients/07-tendermint"
+	localhost "github.com/cosmos/ibc-go/v11/modules/light-clients/09-localhost"
 	ibctesting "github.com/cosmos/ibc-go/v11/testing"
 	mockv2 "github.com/cosmos/ibc-go/v11/testing/mock/v2"
 
@@ -101,6 +102,7 @@ type W struct {
 	steps    []map[string]any
 	maxSeq   uint64
 	v0       [2]int64 // first version whose snapshot the model knows
+	lhChan   [2][2][2]string // localhost channel pairs per chain: [chain][0 unordered,1 ordered][end]
 }
 
 func (w *W) idx(c *ibctesting.TestChain) int {
@@ -128,6 +130,11 @@ func newWorld(t *testing.T, r *hx.Rng) *W {
 	w.pO.CreateChannels()
 	w.pV = ibctesting.NewPath(w.ch[0], w.ch[1])
 	w.pV.SetupV2()
+
+	for ci := range w.ch {
+		w.lhChan[ci][0] = w.setupLocalhost(ci, channeltypes.UNORDERED)
+		w.lhChan[ci][1] = w.setupLocalhost(ci, channeltypes.ORDERED)
+	}
 
 	// fixed interned data: 0 = empty, 1 = v2 sentinel, 2 = default ack
 	w.script = map[string]beh{}
@@ -172,6 +179,35 @@ func newWorld(t *testing.T, r *hx.Rng) *W {
 	w.v0[0] = w.ch[0].App.LastBlockHeight()
 	w.v0[1] = w.ch[1].App.LastBlockHeight()
 	return w
+}
+
+// setupLocalhost opens a loopback channel (both ends on chain ci, port mock) over connection-localhost
+// with the 09-localhost sentinel proof.
+func (w *W) setupLocalhost(ci int, ord channeltypes.Order) [2]string {
+	c := w.ch[ci]
+	signer := c.SenderAccount.GetAddress().String()
+	hops := []string{ibcexported.LocalhostConnectionID}
+	ver := ibctesting.DefaultChannelVersion
+	h := clienttypes.ZeroHeight()
+	must := func(res *abci.ExecTxResult, err error) *abci.ExecTxResult {
+		if err != nil {
+			w.t.Fatalf("localhost handshake: %v", err)
+		}
+		return res
+	}
+	res := must(c.SendMsgs(channeltypes.NewMsgChannelOpenInit(ibctesting.MockPort, ver, ord, hops, ibctesting.MockPort, signer)))
+	a, err := ibctesting.ParseChannelIDFromEvents(res.Events)
+	if err != nil {
+		w.t.Fatal(err)
+	}
+	res = must(c.SendMsgs(channeltypes.NewMsgChannelOpenTry(ibctesting.MockPort, ver, ord, hops, ibctesting.MockPort, a, ver, localhost.SentinelProof, h, signer)))
+	b, err := ibctesting.ParseChannelIDFromEvents(res.Events)
+	if err != nil {
+		w.t.Fatal(err)
+	}
+	must(c.SendMsgs(channeltypes.NewMsgChannelOpenAck(ibctesting.MockPort, a, b, ver, localhost.SentinelProof, h, signer)))
+	must(c.SendMsgs(channeltypes.NewMsgChannelOpenConfirm(ibctesting.MockPort, b, localhost.SentinelProof, h, signer)))
+	return [2]string{a, b}
 }
 
 func (w *W) dataKeys() []string {
